@@ -315,7 +315,7 @@ def campaign_validn(ck: Check, n: int) -> None:
     for i in range(n):
         doc, _ = semgen.gen_doc(rng.fork(str(i)), semgen.GenCfg(draft4=(i % 5 == 0), all_of=False, unions=(i % 2 == 0)))
         try:
-            ssx = semlean.schema_sx(semlean.body_of(doc))
+            ssx = semlean.schema_sx(semlean.body_of(doc), top=True)
             dsx = semlean.defs_sx(doc)
         except semlean.Unmodelled:
             camp.unmodelled += 1
